@@ -19,7 +19,8 @@ no `defined`; nesting budget `d` not exhausted).
 * `funlike_simple_partial`, `terminates_funlike_simple_partial`, `no_backstop_funlike_simple` — the syntactic sub-fragment
   (`SimpleTbl`, `simpleText`: arguments without macro names, replacement lists without function-like names) where the fragment
   condition and the fuel bound are *proved* (nesting budget `|tbl| + 1`, closed-form iteration bound inside `fuelFor`);
-* `FunLikeFull` — what remains open, kept visible. -/
+* `FunLikeFull` — what remains open, kept visible;
+* against the specification itself: `Props/C03FunConf.lean` (`funlike_conforms_partial`, `funlike_simple_conforms_partial`). -/
 namespace CbiVerif.C03
 open CbiVerif.PP CbiVerif.MX
 
@@ -119,8 +120,15 @@ example : inFragment ["G(a) [a]", "AP(v) G v"] "G + AP((1)) AP(2);" 4
 /-- **what remains open** for tables of the fragment (kept visible, not claimed): with a sufficiently large nesting limit and
     fuel the machine agrees with the specification (Prosser's algorithm) on *every* text the specification accepts — including
     calls completed by tokens that follow the replacement list or the argument (a function-like name at the very end of a token
-    list), and `defined` in the text.  (`#`, `##`, variadic parameters are outside `FunTbl`; for them `C03.Full` is the statement.)  Also open: `Ref` =
-    `Spec.Prosser.expand` on the proved fragment (`funlike_simple_conforms_partial` of the plan). -/
+    list), and `defined` in the text.  (`#`, `##`, variadic parameters are outside `FunTbl`; for them `C03.Full` is the statement.)
+
+    State (`Props/C03FunConf.lean`): `Ref` = `Spec.Prosser.expand` is proved on the part of the fragment where every call has
+    exactly as many arguments as parameters and no call argument holds a macro name (`funlike_conforms_partial`, decidable
+    condition `confb`; `funlike_simple_conforms_partial` for the syntactic sub-fragment).  As it stands the statement below is
+    *not provable*: `ref_vs_prosser_witness` is a text inside `fitsb` that the specification accepts and on which the machine
+    (like gcc) and Prosser's algorithm give different tokens — a function-like name left over by the expansion of an argument
+    and called during the rescan; C11 6.10.3.4 p.4 leaves that nesting unspecified.  A provable full statement has to accept
+    either result there (or restrict `out` to texts whose call arguments leave no uncalled function-like name behind). -/
 def FunLikeFull : Prop :=
   ∀ (tbl : Table) (ts : List Tok) (out : List CbiVerif.Spec.Prosser.T), FunTbl tbl →
     CbiVerif.Spec.Prosser.prosserToks (tbl.map fun e => ⟨e.1, e.2.args, false, e.2.replacement.map (toSpec [])⟩) (ts.map (toSpec [])) = .ok out →
